@@ -1,0 +1,54 @@
+//go:build verif
+
+package cache
+
+import "time"
+
+// Verification hooks for property C19 (add-only, build tag `verif`). Thin exported views over
+// unexported state; nothing here is used by production code.
+
+// VerifLRUItem is one entry of the in-memory layer as seen by VerifLRUItems.
+type VerifLRUItem struct {
+	Key       string
+	Data      []byte
+	ExpiresAt time.Time
+}
+
+// VerifLRUKeys returns the keys of the in-memory layer from oldest to newest (recency order).
+func VerifLRUKeys(l *LRUCache) []string {
+	l.mtx.Lock()
+	defer l.mtx.Unlock()
+	return l.lru.Keys()
+}
+
+// VerifLRUItems returns the entries of the in-memory layer from oldest to newest without touching
+// their recency.
+func VerifLRUItems(l *LRUCache) []VerifLRUItem {
+	l.mtx.Lock()
+	defer l.mtx.Unlock()
+	keys := l.lru.Keys()
+	out := make([]VerifLRUItem, 0, len(keys))
+	for _, k := range keys {
+		if it, ok := l.lru.Peek(k); ok {
+			out = append(out, VerifLRUItem{Key: k, Data: it.Data, ExpiresAt: it.ExpiresAt})
+		}
+	}
+	return out
+}
+
+// VerifLRUShiftClock makes the in-memory layer observe that d has elapsed on the wall clock: the
+// layer only ever compares a stored ExpiresAt with time.Now(), so moving every stored deadline back
+// by d is indistinguishable (for the layer) from time.Now() having advanced by d. Recency order and
+// data are untouched.
+func VerifLRUShiftClock(l *LRUCache, d time.Duration) {
+	l.mtx.Lock()
+	defer l.mtx.Unlock()
+	for _, k := range l.lru.Keys() {
+		if it, ok := l.lru.Peek(k); ok {
+			it.ExpiresAt = it.ExpiresAt.Add(-d)
+		}
+	}
+}
+
+// VerifJumpHash exposes the unexported jumpHash.
+func VerifJumpHash(key uint64, numBuckets int) int32 { return jumpHash(key, numBuckets) }
